@@ -122,6 +122,9 @@ ASSUMPTIONS = [
     'raise an exception of one of the framework\'s own classes (WebSocketDisconnected with/without code or a subclass of it, OperationNotAllowed, PayloadTypeError, ValueError incl. the invalid-close-code message, OSError, '
     'AssertionError) by hand or by a failing operation on a SECOND connection\'s WebSocket (relay) while the handled connection is in whatever state the script left it',
     'a custom error handler that returns without closing leaves the socket to the ASGI server (application responsibility); the close-always rule is checked for the default handlers and for custom handlers that close or re-raise HTTPError/HTTPStatus',
+    'a custom error handler "declares ws" when its signature has a parameter NAMED ws of a kind that can be passed by keyword (positional-or-keyword or keyword-only, with or without default, whatever surrounds it); such a handler must be handed '
+    'the connection\'s WebSocket object (docs of add_error_handler: "the ws keyword argument will receive the WebSocket object"). A handler that only has **kwargs, or no ws at all, declares nothing: what it is handed is recorded, not judged, and its scripts only raise. '
+    'A positional-ONLY ws (`ws=None, /`) cannot be passed by keyword and is outside the documented form; sync handlers are rejected at registration (CompatibilityError) unless FALCON_ASGI_WRAP_NON_COROUTINES is set',
     'ARGUMENT TYPES of the send entry points: send_text(payload not an instance of str) / send_data(payload not bytes, bytearray or memoryview) / send_media(an object the handler cannot serialize) '
     'crossed with the session state: the STATE error has precedence (OperationNotAllowed before accept; WebSocketDisconnected(code) once the socket was closed by the application, by a receive that '
     'saw the disconnect, by a close() that recorded it, or by a translated send failure); on an accepted socket the call raises TypeError (send_media: the handler\'s error), hands nothing to the server and '
@@ -165,6 +168,12 @@ RULE = ('random sessions: responder scripts of 0..8 ops x client scripts of 0..6
         'followed by further receives, sends, closes, against clients that are idle at marked points (inbox marker w), max_receive_queue 0 / 1 / 4: 3000 (24000) random sessions, every continuation of <= 2 ops over 7 ops after each of 4 abandoned receives x 3 queue sizes x 3 client scripts, '
         'and K ops / idle points sprinkled into the random sessions (with middleware, faults, custom handlers). '
         'ENTRY POINT x ARGUMENT TYPE x STATE (Wt): 27 calls (send_text / send_data x str, str subclass, bytes, bytes subclass, bytearray, memoryview, None, int, list/dict; send_media x payload_type TEXT / BINARY / another object x serializable or not; receive_text / _data / _media) x 14 situations (before accept, accepted, closed by the application with 3 codes, client gone observed by each receive, disconnect seen by the pump only, server receive raising; queue 0 / 8; client frames with each payload key missing / None / a value) each followed by a well-typed send_text, send_data and a receive, plus 1500 (15000) random scripts of 1..6 calls x 0..4 client events x 8 setups, all through falcon.asgi.App; '
+        'SIGNATURE SHAPE of the custom error handler (falcon introspects it and passes the socket by keyword): 12 shapes of the parameter list after (req, resp, ex, params) - ws=None (the docs), ws (required), ws=None followed / preceded by another parameter, '
+        '*, ws=None / *, ws / *, extra=None, ws=None (keyword-only), *args, ws=None, ws=None next to **kwargs (keyword-only and positional-or-keyword), **kwargs only, no ws at all - x 4 ways of registering it '
+        '(coroutine function, bound method of an application object, object with an async __call__, functools.partial - binding another parameter by keyword, which makes ws keyword-only); the body is the documented idiom '
+        '`if ws is not None: <steps on ws>`, and the Ws / Wp models are fed the steps the handler performs WHEN HANDED THE SOCKET, so a handler that is silently called without it is a model mismatch and an oracle failure; '
+        '75 % of the random sessions with a ws-declaring custom handler draw a shape other than the documented one; plus directed: every shape x every carrier x exception raised before accept / after accept / after accept, a receive and a send / in process_request_ws '
+        'x handler closes 4002 / sends then closes / closes 3001 / raises HTTPError x queue 0 / 4 x spec 2.0 / 2.1 / 2.3 / 2.4 (sync handlers are refused by falcon.asgi.App.add_error_handler and are not part of the space); '
         'non-trivial = at least one event was handed to the server\'s send; distinct = distinct driver line (configuration + scripts + observed flags)')
 PARTIAL = ('the isinstance checks of send_text / send_data and the order of the state test and the argument test are now the model Wt (WsArgs.lean; state_error_wins, accepted_bad_argument, bad_argument_inert, good_send_accepted, send_returns_iff, recv_frame) with its own correspondence over entry point x argument type x state and the refinement op_refines_Ws / run_refines_Ws to the session model; what Wt leaves out: the server\'s send always returns in Wt (its failures are Ws / Wp), the error of a media serializer is one class (serErr; the harness\' handlers raise TypeError), deserialization in receive_media is not in Wt (Wp has it), a receive event of a type other than websocket.receive / websocket.disconnect (the assert in _receive) is not modelled, and the refinement to Ws is stated for frames with exactly one payload (Ws has no kind for none or two - Wt.recv_frame covers them directly). In the big Ws / Wp session correspondences a wrongly typed send is still represented as sendMedia with a rejected argument (token Smt!). '
            'whether an abandonable receive had to wait (was parked and cancelled) is, like the disconnect flag, an observation of the run fed to the model (the waiter bookkeeping of a cancelled receive is C18\'s Wb / Wu models); the independent oracle decides '
@@ -517,6 +526,76 @@ def default_pay(j):
     return {'text': f'out{j}', 'data': bytes([j % 256, 0xff, 0]), 'doc': {'j': j}}
 
 
+# SIGNATURE SHAPE of a custom error handler: falcon passes the WebSocket BY KEYWORD (`ws=...`) to a handler that is able to take a parameter named
+# `ws` (docs of add_error_handler: "the `ws` keyword argument will receive the WebSocket object") - HOW the handler declares that parameter is a
+# dimension of its own, independent of what the handler does with the socket.  shape -> (parameter list after `req, resp, ex, params`, expression
+# that yields the socket inside the body, does the signature DECLARE a parameter named ws?)
+HANDLER_SHAPES = {
+    'pk_default': ('ws=None', 'ws', True),                                # the spelling of the docs
+    'pk_required': ('ws', 'ws', True),                                    # a WebSocket-only handler
+    'pk_default_then_extra': ('ws=None, extra=None', 'ws', True),
+    'extra_then_pk_default': ('extra=None, ws=None', 'ws', True),         # functools.partial(h, extra=1) turns ws into a keyword-only parameter
+    'kwonly_default': ('*, ws=None', 'ws', True),
+    'kwonly_required': ('*, ws', 'ws', True),
+    'kwonly_after_extra': ('*, extra=None, ws=None', 'ws', True),
+    'varargs_kwonly_default': ('*args, ws=None', 'ws', True),
+    'kwonly_default_varkw': ('*, ws=None, **kwargs', 'ws', True),
+    'pk_default_varkw': ('ws=None, **kwargs', 'ws', True),
+    'varkw_only': ('**kwargs', "kwargs.get('ws')", False),                # no parameter NAMED ws: the statement / docs do not say it gets the socket
+    'absent': ('', 'None', False),
+}
+DECLARING_SHAPES = [k for k, v in HANDLER_SHAPES.items() if v[2]]
+HANDLER_CARRIERS = ['function', 'function', 'bound_method', 'callable_object', 'partial']
+
+
+def handler_source(shape, carrier):
+    """the `async def` an application would write (shown in the failing case)"""
+    extra = HANDLER_SHAPES[shape][0]
+    params = 'req, resp, ex, params' + (', ' + extra if extra else '')
+    if carrier in ('bound_method', 'callable_object'): params = 'self, ' + params
+    name = {'function': 'handle', 'partial': 'handle', 'bound_method': 'handle', 'callable_object': '__call__'}[carrier]
+    return 'async def %s(%s):\n    await body(%s)\n' % (name, params, HANDLER_SHAPES[shape][1])
+
+
+def build_handler(shape, carrier, body):
+    """the object handed to add_error_handler: a coroutine function / a bound method of an application object / an object with an async __call__ /
+    a functools.partial of a coroutine function (binding `extra` by keyword where the signature has it, which makes every later parameter keyword-only)"""
+    import functools
+    ns = {'body': body}
+    exec(handler_source(shape, carrier), ns)       # noqa: S102 - the source is the fixed template above
+    if carrier == 'function': return ns['handle']
+    if carrier == 'partial':
+        return functools.partial(ns['handle'], extra=1) if 'extra' in HANDLER_SHAPES[shape][0] else functools.partial(ns['handle'])
+    if carrier == 'bound_method': return type('Handlers', (), {'handle': ns['handle']})().handle
+    return type('Handler', (), {'__call__': ns['__call__']})()
+
+
+def gen_handler_shape(rnd, declares):
+    if not declares: return rnd.choice(['absent', 'absent', 'varkw_only']), rnd.choice(HANDLER_CARRIERS)
+    return (rnd.choice(DECLARING_SHAPES) if rnd.random() < 0.75 else 'pk_default'), rnd.choice(HANDLER_CARRIERS)
+
+
+def gen_handler_directed():
+    """every signature shape that declares `ws` x every carrier x where the application exception is raised (before accept / after accept / after accept and a
+    message / in process_request_ws) x what the handler does with the socket (close 4002 / send + close / close after the client's message) x queue 0 / 4 x spec version"""
+    endings = [([], [('X', 0)]), ([], [('A000', 1), ('X', 0)]), ([], [('A000', 1), ('Rt', 1), ('St', 1), ('X', 0)]), ([('X', 0)], [])]
+    hkinds = [[('C4002', 0)], [('St', 1), ('Cn', 0)], [('C3001', 0)], [('H409', 0)]]
+    j = 0
+    for shape in list(HANDLER_SHAPES):
+        for carrier in ('function', 'bound_method', 'callable_object', 'partial'):
+            for mwreq, script in endings:
+                for hs in hkinds:
+                    declares = HANDLER_SHAPES[shape][2]
+                    if not declares and hs[0][0][0] != 'H': continue       # a handler without the socket can only raise
+                    j += 1
+                    mk = lambda toks, who: [{'tok': t, 'catch': c, 'var': 0, 'pay': default_pay(i)} for i, (t, c) in enumerate(toks)]
+                    inbox = ['t0', 'b', 'd1001'] if j % 2 else ['t1', 't1', 'dn']
+                    yield {'ver': ('2.0', '2.1', '2.3', '2.4')[j % 4], 'q': (0, 4)[(j // 2) % 2], 'first': 1, 'route': 'r', 'mwreq': mk(mwreq, 'm'), 'mwres': [], 'mw_present': bool(mwreq),
+                           'script': mk(script, 's'), 'custom': {'ws': declares, 'sig': shape, 'carrier': carrier, 'steps': mk(hs, 'h')},
+                           'inbox': inbox, 'events': [default_event(t, k) for k, t in enumerate(inbox)], 'wp_only': False,
+                           'starve': 'late', 'fail': None, 'fault': 'os', 'refuse': [], 'err': (1011, 4000)[j % 2], 'binh': False, 'yields': 777 + j}
+
+
 WP_OPS = ['St', 'St', 'Sb', 'Sb', 'Sx', 'Sn', 'Rt', 'Rt', 'Rd', 'Rd', 'Rm', 'Rm', 'Rm', 'A000', 'Cn', 'C1001', 'B', 'Ewsd4000', 'Wt', 'Wb']
 
 
@@ -559,7 +638,8 @@ def gen_random(rnd):
         kind = rnd.choice(['close', 'sendclose', 'swallow', 'http', 'status', 'raise', 'nows', 'nows_http', 'foreign'])
         hs = {'close': [('C4002', 0)], 'sendclose': [('St', 1), ('Cn', 0)], 'swallow': [], 'http': [('H409', 0)],
               'status': [('T204', 0)], 'raise': [('X', 0)], 'nows': [], 'nows_http': [('H410', 0)], 'foreign': [(rnd.choice(FOREIGN), 0)]}[kind]
-        custom = {'ws': not kind.startswith('nows'), 'steps': [{'tok': t, 'catch': c, 'var': 0, 'pay': gen_pay(rnd)} for t, c in hs]}
+        sig, carrier = gen_handler_shape(rnd, not kind.startswith('nows'))
+        custom = {'ws': not kind.startswith('nows'), 'sig': sig, 'carrier': carrier, 'steps': [{'tok': t, 'catch': c, 'var': 0, 'pay': gen_pay(rnd)} for t, c in hs]}
     binh = rnd.random() < 0.5
     mwreq = steps(rnd.randint(0, 2), OPS, 0.8) if mw and rnd.random() < 0.6 else []
     mwres = steps(rnd.randint(0, 2), OPS, 0.8) if mw and rnd.random() < 0.6 else []
@@ -828,7 +908,7 @@ def run(ctx):
     # ---------------------------------------------------------------- one real session
     async def session(spec):
         yr = random.Random(spec['yields'])
-        o = {'calls': [], 'trace': [], 'steps': [], 'handed': None, 'out_n': 0, 'ws': None, 'cur': None, 'turn': 0, 'park_send': None}
+        o = {'calls': [], 'trace': [], 'steps': [], 'handed': None, 'out_n': 0, 'ws': None, 'cur': None, 'turn': 0, 'park_send': None, 'hcalls': []}
         events = [dict(e) for e in spec['events']]
         ev = [{'type': 'websocket.connect'} if spec['first'] else {'type': 'websocket.disconnect', 'code': 1001}] + list(events)
         never = asyncio.get_running_loop().create_future()
@@ -1086,13 +1166,17 @@ def run(ctx):
         elif spec['route'] == 'n': app.add_route('/ws', NoWs())
         cu = spec['custom']
         if cu is not None:
-            if cu['ws']:
-                async def handler(req, resp, ex, params, ws=None):
-                    await run_steps(ws, 'handler', cu['steps'])
-            else:
-                async def handler(req, resp, ex, params):
+            async def body(got):
+                # what the handler was handed in the place of `ws`: the connection's own socket / nothing / something else
+                o['hcalls'].append('live' if (got is not None and got is o['ws']) else ('none' if got is None else 'other:' + type(got).__name__))
+                if cu['ws']:
+                    # the documented idiom `if ws is not None: ...`: without a socket this is the HTTP branch, and on a WebSocket connection
+                    # (resp is None) there is nothing for it to do
+                    if got is None: return
+                    await run_steps(got, 'handler', cu['steps'])
+                else:
                     await run_steps(o['ws'], 'handler', cu['steps'])     # raise-only scripts: never touches the socket
-            app.add_error_handler(Boom, handler)
+            app.add_error_handler(Boom, build_handler(cu.get('sig', 'pk_default' if cu['ws'] else 'absent'), cu.get('carrier', 'function'), body))
         o['reasons'] = sorted(app.ws_options.default_close_reasons.keys())
 
         class Rec(wsmod.WebSocket):
@@ -1620,6 +1704,32 @@ def run(ctx):
         if o['esc'] == '-': return 'no close could be delivered (every attempt failed at the server) but nothing was reported to the server'
         return None
 
+    ORA_HANDLER = ('a custom error handler that declares a parameter named ws - in whatever signature shape: positional-or-keyword, keyword-only, with or without default, '
+                   'next to *args / **kwargs / other parameters; function, bound method, callable object, functools.partial - receives the connection\'s WebSocket, and when '
+                   'it is the one responsible for closing, a close / denial is delivered while the client is still connected')
+
+    def oracle_handler(spec, o):
+        """the custom error handler as the statement sees it: it is handed the live socket whenever it declares `ws`; a handler whose whole job is to
+        close the socket (close / send + close, working server, client still there) leaves a session in which a close or denial was delivered."""
+        cu = spec['custom']
+        if cu is None or not spec['first'] or not o['hcalls']: return None
+        sig, carrier = cu.get('sig', 'pk_default' if cu['ws'] else 'absent'), cu.get('carrier', 'function')
+        shown = handler_source(sig, carrier).split('\n')[0]
+        saw = [c['r'] + ('' if c['ok'] else '!') for c in o['calls']]
+        if HANDLER_SHAPES[sig][2]:
+            for got in o['hcalls']:
+                if got != 'live':
+                    return (f"the custom error handler `{shown}` ({carrier}) declares a parameter named ws, but on this WebSocket connection it was called with ws = {got} "
+                            f"(documented: the ws keyword argument receives the WebSocket object); the server saw {saw}, the client "
+                            f"{'is still connected' if o['handed'] is None else 'has left'}")
+        closing = [s for s in cu['steps'] if s['tok'][0] == 'C']
+        simple = all((s['tok'] in ('C4002', 'Cn', 'C3001', 'C1000', 'C4999') and s['catch'] == 0) or (s['tok'] == 'St' and s['catch'] >= 1) for s in cu['steps'])
+        if cu['ws'] and closing and simple and spec['fail'] is None and not spec.get('refuse') and o['handed'] is None and o['esc'] == '-':
+            if not any(c['m'].get('type') == 'websocket.close' and c['ok'] for c in o['calls']):
+                return (f"the application exception was handled by the custom error handler `{shown}` whose script {[s['tok'] for s in cu['steps']]} closes the socket; the application returned "
+                        f"to the server, the client is still connected, and no close / denial was ever delivered: the server saw {saw}")
+        return None
+
     sess = ctx.session('falcon.asgi.App websocket session = Ws model (handleMw)', 'wsdriver')
     sess_wp = ctx.session('falcon.asgi.App websocket session with payloads (hex of every payload sent / value received) = Wp model (handleMw)', 'wpdriver')
     F_NAME = 'receive in accepted state delivers the next message'
@@ -1649,7 +1759,11 @@ def run(ctx):
         case['script'] = [shown(s) for s in spec['script']]
         case['mwreq'] = [shown(s) for s in spec['mwreq']]
         case['mwres'] = [shown(s) for s in spec['mwres']]
-        case['custom'] = None if spec['custom'] is None else {'ws': spec['custom']['ws'], 'steps': [shown(x) for x in spec['custom']['steps']]}
+        cu_ = spec['custom']
+        case['custom'] = None if cu_ is None else {'ws': cu_['ws'], 'registered_as': cu_.get('carrier', 'function'),
+                                                   'signature': handler_source(cu_.get('sig', 'pk_default' if cu_['ws'] else 'absent'), cu_.get('carrier', 'function')).split('\n')[0],
+                                                   'body': 'if ws is not None: run the steps on ws' if cu_['ws'] else 'run the (raise-only) steps',
+                                                   'steps': [shown(x) for x in cu_['steps']]}
         seen = {'server_saw': [render_wp(c['m']) + ('' if c['ok'] else '!') for c in o['calls']],
                 'ops': [(r['who'], r['tok'], (r['outcome'] + (' (parked, then %s)' % ('asyncio.wait_for timeout' if r.get('how') == 'wait_for' else 'task.cancel()'))) if r['outcome'] == 'CAN' else outcome_wp(r))
                         for r in o['steps']], 'escaped': o['esc']}
@@ -1675,6 +1789,15 @@ def run(ctx):
         tail_bad = oracle_tail(spec, o) if bad is None else None
         ctx.oracle('a close with the documented code (1000 / 3404 / 3405 / 3000+status / error_close_code / 3011) is always sent while the client is connected; nothing escapes without a failing send',
                    tail_bad is None, tail_bad, dict(case, observed=seen))
+        hbad = oracle_handler(spec, o)
+        ctx.oracle(ORA_HANDLER, hbad is None, hbad, dict(case, observed=dict(seen, handler_was_handed=o['hcalls'])))
+        if cu_ is not None and o['hcalls']:
+            ctx.count('error_handler_signature_' + cu_.get('sig', '?')); ctx.count('error_handler_registered_as_' + cu_.get('carrier', '?'))
+            if cu_['ws'] and o['hcalls'][0] == 'live':
+                ctx.count('error_handler_declaring_ws_was_handed_the_live_socket')
+                if any(c['m'].get('type') == 'websocket.close' and c['ok'] and c['i'] >= min([r['c0'] for r in o['steps'] if r['who'] == 'handler'], default=1 << 30) for c in o['calls']):
+                    ctx.count('error_handler_closed_the_socket_' + ('keyword_only_ws' if 'kwonly' in cu_.get('sig', '') or (cu_.get('carrier') == 'partial' and cu_.get('sig') == 'extra_then_pk_default') else 'positional_or_keyword_ws'))
+            if not cu_['ws']: ctx.count('error_handler_without_ws_parameter_was_handed_' + o['hcalls'][0].split(':')[0])
         ctx.seen(line, bool(o['calls']))
         ctx.count('q_%d' % spec['q']); ctx.count('ver_' + spec['ver']); ctx.count('origin_' + origin)
         ctx.count('route_' + spec['route'])
@@ -2026,6 +2149,9 @@ def run(ctx):
         for j, spec in enumerate(gen_argtype_directed()):
             if j % k == i:
                 await one(spec, 'argtype_directed')
+        for j, spec in enumerate(gen_handler_directed()):
+            if j % k == i:
+                await one(spec, 'handler_signature_directed')
         maxlen = 2 if ctx.quick else 3
         for j, spec in enumerate(gen_exhaustive(maxlen)):
             if j % k == i:
